@@ -255,3 +255,98 @@ pub proof fn lemma_access_step_refl(a: AccessType, env: DegreeEnvironment, t: Tr
 {
     match a { AccessType::ArrayAccess(e) => { lemma_step_refl(*e, env, t); } _ => {} }
 }
+
+// ---- statement level (Statement::propagate_degrees): the degree environment stays sound
+pub open spec fn log_sound_d(a: LogArgument, t: Truth) -> bool {
+    match a { LogArgument::Expr(e) => annot_sound(*e, t), _ => true }
+}
+pub open spec fn all_log_sound_d(v: Seq<LogArgument>, n: int, t: Truth) -> bool
+    decreases n
+{
+    if n <= 0 || n > v.len() { true } else { all_log_sound_d(v, n - 1, t) && log_sound_d(v[n - 1], t) }
+}
+pub open spec fn log_first_write(a: LogArgument, env: DegreeEnvironment) -> bool {
+    match a { LogArgument::Expr(e) => has_first_write(*e, env), _ => false }
+}
+pub open spec fn any_log_first_write(v: Seq<LogArgument>, n: int, env: DegreeEnvironment) -> bool
+    decreases n
+{
+    if n <= 0 || n > v.len() { false } else { any_log_first_write(v, n - 1, env) || log_first_write(v[n - 1], env) }
+}
+pub open spec fn stmt_sound_d(st: Statement, t: Truth) -> bool {
+    match st {
+        Statement::Declaration { dimensions, .. } => all_sound(dimensions@, dimensions@.len() as int, t),
+        Statement::IfThenElse { cond, .. } => annot_sound(cond, t),
+        Statement::Return { value, .. } => annot_sound(value, t),
+        Statement::Substitution { rhe, .. } => annot_sound(rhe, t),
+        Statement::ConstraintEquality { lhe, rhe, .. } => annot_sound(lhe, t) && annot_sound(rhe, t),
+        Statement::LogCall { args, .. } => all_log_sound_d(args@, args@.len() as int, t),
+        Statement::Assert { arg, .. } => annot_sound(arg, t),
+    }
+}
+pub open spec fn stmt_first_write(st: Statement, env: DegreeEnvironment) -> bool {
+    match st {
+        Statement::Declaration { .. } => false,
+        Statement::IfThenElse { cond, .. } => has_first_write(cond, env),
+        Statement::Return { value, .. } => has_first_write(value, env),
+        Statement::Substitution { rhe, .. } => has_first_write(rhe, env),
+        Statement::ConstraintEquality { lhe, rhe, .. } => has_first_write(lhe, env) || has_first_write(rhe, env),
+        Statement::LogCall { args, .. } => any_log_first_write(args@, args@.len() as int, env),
+        Statement::Assert { arg, .. } => has_first_write(arg, env),
+    }
+}
+// t is a valuation in which this statement holds: a local variable assigned here has at most the degree of its
+// right-hand side; declared signals and components are indeterminates (degree at most 1)
+pub open spec fn consistent_d(st: Statement, env: DegreeEnvironment, t: Truth) -> bool {
+    match st {
+        Statement::Substitution { var, rhe, .. } => denv_local(env, var) ==> t(var) <= sem(rhe, t),
+        Statement::Declaration { names, var_type, .. } => vt_linear(var_type) ==> forall|v: VariableName| nev_names(names).contains(v) ==> #[trigger] t(v) <= 1,
+        _ => true,
+    }
+}
+pub open spec fn stmt_step_ok_d(pre: Statement, post: Statement, env0: DegreeEnvironment, env1: DegreeEnvironment, t: Truth) -> bool {
+    truth_ok(t) && env_sound(env0, t) && stmt_sound_d(pre, t) && consistent_d(pre, env0, t) && !stmt_first_write(pre, env0)
+        ==> env_sound(env1, t) && stmt_sound_d(post, t)
+}
+pub open spec fn log_step_ok_d(a0: LogArgument, a1: LogArgument, env: DegreeEnvironment, t: Truth) -> bool {
+    match (a0, a1) {
+        (LogArgument::Expr(e0), LogArgument::Expr(e1)) => step_ok(*e0, *e1, env, t),
+        (LogArgument::String(x), LogArgument::String(y)) => true,
+        _ => false,
+    }
+}
+pub proof fn lemma_log_step_refl_d(a: LogArgument, env: DegreeEnvironment, t: Truth)
+    ensures log_step_ok_d(a, a, env, t)
+{
+    match a { LogArgument::Expr(e) => { lemma_step_refl(*e, env, t); } _ => {} }
+}
+pub proof fn lemma_log_step_d(v0: Seq<LogArgument>, v1: Seq<LogArgument>, n: int, env: DegreeEnvironment, t: Truth)
+    requires v0.len() == v1.len(), 0 <= n <= v0.len(), forall|k: int| 0 <= k < n ==> log_step_ok_d(#[trigger] v0[k], v1[k], env, t)
+    ensures
+        any_log_first_write(v1, n, env) == any_log_first_write(v0, n, env),
+        truth_ok(t) && env_sound(env, t) && all_log_sound_d(v0, n, t) && !any_log_first_write(v0, n, env) ==> all_log_sound_d(v1, n, t),
+    decreases n
+{
+    if n > 0 {
+        lemma_log_step_d(v0, v1, n - 1, env, t);
+        assert(log_step_ok_d(v0[n - 1], v1[n - 1], env, t));
+        match (v0[n - 1], v1[n - 1]) {
+            (LogArgument::Expr(e0), LogArgument::Expr(e1)) => {
+                assert(step_ok(*e0, *e1, env, t));
+                assert(log_first_write(v0[n - 1], env) == has_first_write(*e0, env));
+                assert(log_first_write(v1[n - 1], env) == has_first_write(*e1, env));
+                assert(log_sound_d(v0[n - 1], t) == annot_sound(*e0, t));
+                assert(log_sound_d(v1[n - 1], t) == annot_sound(*e1, t));
+            }
+            (LogArgument::String(_), LogArgument::String(_)) => {
+                assert(!log_first_write(v0[n - 1], env) && !log_first_write(v1[n - 1], env));
+                assert(log_sound_d(v0[n - 1], t) && log_sound_d(v1[n - 1], t));
+            }
+            _ => { assert(false); }
+        }
+        assert(any_log_first_write(v1, n, env) == (any_log_first_write(v1, n - 1, env) || log_first_write(v1[n - 1], env)));
+        assert(any_log_first_write(v0, n, env) == (any_log_first_write(v0, n - 1, env) || log_first_write(v0[n - 1], env)));
+        assert(all_log_sound_d(v1, n, t) == (all_log_sound_d(v1, n - 1, t) && log_sound_d(v1[n - 1], t)));
+        assert(all_log_sound_d(v0, n, t) == (all_log_sound_d(v0, n - 1, t) && log_sound_d(v0[n - 1], t)));
+    }
+}
